@@ -44,6 +44,7 @@ def record_from_differential(prog: programs.Program, res: dict[str, Any], tag: s
         rec["violations"].append(
             {
                 "family": prog.family,
+                "program": prog.pid,
                 "kind": "load",
                 "cls": "any",
                 "text": f"{prog.pid}: ONNX Runtime refuses the model: {res['load_error'][:300]}",
@@ -64,6 +65,7 @@ def record_from_differential(prog: programs.Program, res: dict[str, Any], tag: s
             rec["violations"].append(
                 {
                     "family": prog.family,
+                    "program": prog.pid,
                     "kind": r.cmp.kind if r.cmp is not None else "value",
                     "cls": r.cls,
                     "text": f"{prog.pid} [{tag}{r.cls}]: {r.text or (r.cmp.text if r.cmp else '')}",
